@@ -156,6 +156,10 @@ def lifetime_descs(draw, U, classes=None, well_conditioned=False):
                 pl = draw(gen.ordered_subtuple(letters[1:], min_size=min(1, len(letters) - 1)))
             n = gen._size(U, pl)
             prms[name] = {"kind": "array", "letters": pl, "vals": draw(st.lists(el, min_size=n, max_size=n))}
+            if draw(st.integers(0, 5)) == 0:
+                # whole-number parameters handed over as an integer-typed array (lifetimes in whole years)
+                prms[name]["vals"] = [float(max(1, round(v))) for v in prms[name]["vals"]]
+                prms[name]["int_dtype"] = True
     n_pts = draw(st.sampled_from([1, 1, 1, 2, 3, 4, 5, 6, 7, 8, 9, 10]))
     return {"cls": cls, "prms": prms, "inflow_at": draw(st.sampled_from(["start", "middle", "end"])), "n_pts": n_pts}
 
@@ -171,7 +175,10 @@ def prm_value_fn(U, p):
 def build_prm(U, p):
     if p["kind"] == "scalar":
         return float(p["v"])
-    return build.array(U, {"letters": p["letters"], "mode": "float", "vals": p["vals"]})
+    a = build.array(U, {"letters": p["letters"], "mode": "float", "vals": p["vals"]})
+    if p.get("int_dtype"):
+        a = fd.FlodymArray(dims=a.dims, values=np.asarray(a.values).astype(np.int64))
+    return a
 
 
 def build_lifetime(U, lt, letters=None):
@@ -203,6 +210,7 @@ def stock_configs(draw, classes=("simple", "idsm", "sdsm_manual", "sdsm_lapack")
         cfg["lt"] = draw(lifetime_descs(U, classes=lt_classes, well_conditioned=well_conditioned or cfg["cls"].startswith("sdsm")))
         el = sgn if (signed or cfg["cls"].startswith("sdsm")) else pos
         cfg["driver"] = draw(st.lists(el, min_size=n, max_size=n))
+        cfg["lt_via"] = draw(st.sampled_from(["instance", "instance", "class"]))
         if draw(st.integers(0, 3)) == 0:
             # re-parameterise and recompute on the same object (as in a scenario loop)
             cfg["reprm"] = draw(lifetime_descs(U, classes=(cfg["lt"]["cls"],), well_conditioned=True))["prms"]
@@ -242,10 +250,19 @@ def build_stock(cfg, driver=None, lifetime=None):
     if c == "simple":
         out = driver_array(cfg, driver_values(cfg, "outflow"))
         return fd.SimpleFlowDrivenStock(dims=dims, inflow=d, outflow=out, name="s")
-    lm = lifetime if lifetime is not None else build_lifetime(U, cfg["lt"])
+    via_class = lifetime is None and cfg.get("lt_via") == "class"
+    lm = lifetime if lifetime is not None else (getattr(fd, cfg["lt"]["cls"]) if via_class else build_lifetime(U, cfg["lt"]))
     if c == "idsm":
-        return fd.InflowDrivenDSM(dims=dims, inflow=d, lifetime_model=lm, name="s")
-    return fd.StockDrivenDSM(dims=dims, stock=d, lifetime_model=lm, solver=c.split("_")[1], name="s")
+        stock = fd.InflowDrivenDSM(dims=dims, inflow=d, lifetime_model=lm, name="s")
+    else:
+        stock = fd.StockDrivenDSM(dims=dims, stock=d, lifetime_model=lm, solver=c.split("_")[1], name="s")
+    if via_class:
+        # the stock was given the model CLASS and created the instance itself: settings and parameters follow
+        lt = cfg["lt"]
+        stock.lifetime_model.inflow_at = lt.get("inflow_at", "middle")
+        stock.lifetime_model.n_pts_per_interval = lt.get("n_pts", 1)
+        stock.lifetime_model.set_prms(**{n: build_prm(U, p) for n, p in lt["prms"].items()})
+    return stock
 
 
 def first_interval_survival(stock):
